@@ -96,7 +96,25 @@ pub fn generate(g: &mut G, _index: u64) -> Scenario {
             ops.push(Op::Stop { h: PRIMARY })
         }
     };
-    match g.below(11) {
+    match g.below(12) {
+        11 => {
+            // two join futures pending at the same time in different tasks: both resolve when the
+            // actor has terminated (one gets the value, the other None)
+            ops.push(Op::JoinStart { h: PRIMARY });
+            ops.push(Op::JoinStart { h: PRIMARY });
+            if g.chance(1, 2) {
+                ops.push(Op::JoinSpawn);
+                ops.push(Op::Yield(g.range(1, 3) as u32));
+                ops.push(Op::JoinPoll);
+            } else {
+                ops.push(Op::JoinPoll);
+                ops.push(Op::JoinSpawn);
+                ops.push(Op::Yield(g.range(1, 3) as u32));
+            }
+            stop(ops);
+            ops.push(Op::JoinFinish);
+            ops.push(Op::JoinCollect);
+        }
         10 => {
             // a join future that was polled once and is kept, unpolled, must not block later joins
             ops.push(Op::JoinStart { h: PRIMARY });
@@ -173,7 +191,7 @@ pub fn generate(g: &mut G, _index: u64) -> Scenario {
 }
 
 fn is_join(o: &Op) -> bool {
-    matches!(o, Op::Join { .. } | Op::JoinFinish | Op::DropThenJoin { .. } | Op::Consume { .. } | Op::ConsumeSync { .. })
+    matches!(o, Op::Join { .. } | Op::JoinFinish | Op::JoinCollect | Op::DropThenJoin { .. } | Op::Consume { .. } | Op::ConsumeSync { .. })
 }
 // (JoinPoll that finds its future ready reports Joined(..) like a join; one that stays pending is
 // not an ended join)
@@ -191,7 +209,7 @@ pub fn check(v: &View) -> Vec<Violation> {
         let joins: Vec<&OpRec> = v
             .ops
             .iter()
-            .filter(|o| (is_join(o.inner) || (matches!(o.inner, Op::JoinPoll) && matches!(o.res, Some(Res::Joined(_))))) && !o.skipped() && (o.target == Some(aidx) || (matches!(o.inner, Op::JoinFinish | Op::JoinPoll) && v.sc.actors.len() == 1)))
+            .filter(|o| (is_join(o.inner) || (matches!(o.inner, Op::JoinPoll) && matches!(o.res, Some(Res::Joined(_))))) && !o.skipped() && (o.target == Some(aidx) || (matches!(o.inner, Op::JoinFinish | Op::JoinPoll | Op::JoinCollect) && v.sc.actors.len() == 1)))
             .collect();
         let mut somes = 0;
         for o in &joins {
